@@ -543,11 +543,11 @@ func rulePaddingShape(p *Prog, r *Out) {
 		subst := singleDefs(fd.Body)
 		lin := func(t map[string]int64, c int64) Lin { return Lin{T: t, C: c} }
 		allowed := map[string]string{
-			Cmp{lin(map[string]int64{"len(payload)": 1}, 0), "eq"}.String():                                    "no payload",
-			Cmp{lin(map[string]int64{"len(payload)": 1}, 0), "le"}.String():                                    "no payload",
-			Cmp{lin(map[string]int64{"length": 1}, 0), "le"}.String():                                          "length < 1",
-			Cmp{lin(map[string]int64{"len(payload)": 1, "length": -1}, 1), "le"}.String():                      "length > len(payload)",
-			Cmp{lin(map[string]int64{"length": 1, "payload[0]": -1}, 0), "le"}.String():                        "pad >= length",
+			Cmp{lin(map[string]int64{"len(payload)": 1}, 0), "eq"}.String():                                "no payload",
+			Cmp{lin(map[string]int64{"len(payload)": 1}, 0), "le"}.String():                                "no payload",
+			Cmp{lin(map[string]int64{"length": 1}, 0), "le"}.String():                                      "length < 1",
+			Cmp{lin(map[string]int64{"len(payload)": 1, "length": -1}, 1), "le"}.String():                  "length > len(payload)",
+			Cmp{lin(map[string]int64{"length": 1, "payload[0]": -1}, 0), "le"}.String():                    "pad >= length",
 			Cmp{lin(map[string]int64{"len(payload)": 1, "length": -1, "payload[0]": 1}, 2), "le"}.String(): "len(payload) < length-pad-1 (implied by the others)",
 		}
 		n := 0
